@@ -1152,3 +1152,205 @@ Proof.
   - cbn. repeat split; try reflexivity. repeat constructor; lia.
   - vm_compute. reflexivity.
 Qed.
+
+(* ====================================================================== concrete files: opening always terminates *)
+Definition file_ok (f : file) : Prop := Forall (fun c : Z * list Z => bytes_ok (snd c)) (fl_chunks f).
+
+Lemma zlen_repeat (x : Z) n : zlen (repeat x n) = Z.of_nat n.
+Proof. unfold zlen. now rewrite repeat_length. Qed.
+
+Lemma read_chunks_len cs : forall off n, zlen (read_chunks cs off n) <= Z.max 0 n.
+Proof.
+  induction cs as [|[co bs] cs IH]; intros off n; cbn [read_chunks].
+  - destruct (Z.leb_spec n 0); [cbn; lia|]. rewrite zlen_repeat. lia.
+  - destruct (Z.leb_spec n 0); [cbn; lia|].
+    destruct (Z.leb_spec (off + n) co); [rewrite zlen_repeat; lia|].
+    destruct (Z.leb_spec (co + zlen bs) off); [apply IH|].
+    rewrite !zlen_app, zlen_repeat.
+    pose proof (zlen_nonneg bs).
+    set (s := Z.max off co). set (take := Z.min (off + n) (co + zlen bs) - s).
+    assert (Hsl : zlen (slice bs (s - co) take) <= Z.max 0 take).
+    { unfold slice, zlen. rewrite firstn_length. lia. }
+    specialize (IH (s + take) (off + n - (s + take))). subst s take. lia.
+Qed.
+
+Lemma fread_len f off n : zlen (fread f off n) <= Z.max 0 (fl_size f - off) /\ (off < 0 -> fread f off n = []).
+Proof.
+  unfold fread. destruct (Z.ltb_spec off 0); split; try (cbn; lia); try reflexivity.
+  - pose proof (read_chunks_len (fl_chunks f) off (Z.min n (fl_size f - off))). lia.
+Qed.
+
+Lemma bytes_ok_repeat0 n : bytes_ok (repeat 0 n).
+Proof. induction n; cbn; constructor; [lia|assumption]. Qed.
+
+Lemma read_chunks_ok cs : Forall (fun c : Z * list Z => bytes_ok (snd c)) cs ->
+  forall off n, bytes_ok (read_chunks cs off n).
+Proof.
+  induction 1 as [|[co bs] cs Hb _ IH]; intros off n; cbn [read_chunks].
+  - destruct (n <=? 0); [constructor|apply bytes_ok_repeat0].
+  - destruct (n <=? 0); [constructor|].
+    destruct (off + n <=? co); [apply bytes_ok_repeat0|].
+    destruct (co + zlen bs <=? off); [apply IH|].
+    apply Forall_app. split; [apply bytes_ok_repeat0|]. apply Forall_app. split; [|apply IH].
+    unfold slice. apply bytes_ok_firstn, bytes_ok_skipn. exact Hb.
+Qed.
+
+Lemma fread_ok f off n : file_ok f -> bytes_ok (fread f off n).
+Proof. intros H. unfold fread. destruct (off <? 0); [constructor|]. now apply read_chunks_ok. Qed.
+
+Lemma load_otab_range f o t : load_otab f o = Ok t -> In o (zseq 0 (fl_size f)).
+Proof.
+  unfold load_otab. destruct (parse_fields otab_widths (fread f o otab_size)) as [vs|] eqn:Hp; [|discriminate].
+  intros _.
+  assert (Hw : Forall (fun w => 0 <= w) otab_widths) by (rewrite otab_widths_eq; unfold W_otab; repeat constructor; lia).
+  destruct (parse_fields_some _ _ _ Hw Hp) as [Hsum _]. rewrite otab_widths_eq in Hsum. cbn in Hsum.
+  destruct (fread_len f o otab_size) as [Hlen Hneg].
+  destruct (Z.ltb_spec o 0) as [Ho|Ho]; [rewrite (Hneg Ho) in Hsum; cbn in Hsum; lia|].
+  apply zseq_In. lia.
+Qed.
+
+Lemma load_otab_nofuel f o : load_otab f o <> Fuel.
+Proof.
+  unfold load_otab. destruct (parse_fields _ _) as [[|sig [|n [|]]]|]; try discriminate.
+  destruct (negb _); [discriminate|]. destruct (_ && _); [discriminate|].
+  destruct (all_some _); discriminate.
+Qed.
+
+Lemma load_rlog_nofuel f o : load_rlog f o <> Fuel.
+Proof.
+  unfold load_rlog. destruct (parse_fields _ _) as [[|sig [|ck [|n rest]]]|]; try discriminate.
+  destruct (negb _); [discriminate|]. destruct (_ && _); discriminate.
+Qed.
+
+Lemma load_ktab_nofuel f : file_ok f -> forall o s, load_ktab f o s <> Fuel.
+Proof. intros Hf o s. apply parse_ktab_progress, fread_ok, Hf. Qed.
+
+Lemma pow2_fuel n : 0 <= n -> (Z.to_nat n < 2 ^ S (Z.to_nat (Z.log2 (Z.max 1 (n + 1)))))%nat.
+Proof.
+  intros Hn. assert (Hm : 0 < Z.max 1 (n + 1)) by lia.
+  pose proof (Z.log2_spec _ Hm) as [_ Hlt]. pose proof (Z.log2_nonneg (Z.max 1 (n + 1))) as Hl.
+  apply Nat2Z.inj_lt. rewrite Nat2Z.inj_pow. change (Z.of_nat 2) with 2.
+  rewrite Nat2Z.inj_succ, !Z2Nat.id by lia. apply Z.lt_trans with (m := Z.max 1 (n + 1)); [lia|exact Hlt].
+Qed.
+
+(* HyperVFile.__init__ (repaired) terminates on every file, whatever its bytes *)
+Theorem open_file_terminates f : file_ok f -> open_file f <> Fuel.
+Proof.
+  intros Hf. unfold open_file.
+  destruct (parse_fhdr (fread f C.hyperv_FIRST_HEADER_OFFSET fhdr_size)); cbn [of_option bind]; [|discriminate].
+  destruct (parse_fhdr (fread f C.hyperv_SECOND_HEADER_OFFSET fhdr_size)); cbn [of_option bind]; [|discriminate].
+  destruct (negb _); [discriminate|]. destruct (negb _); [discriminate|].
+  pose proof (load_rlog_nofuel f (h_rlo (active_header f0 f1))) as Hr.
+  destruct (load_rlog f (h_rlo (active_header f0 f1))); cbn [bind]; try congruence.
+  destruct (run_worklist_terminates (load_otab f) (load_ktab f) (load_rlog f) (zseq 0 (fl_size f))
+              (load_otab_range f) (load_ktab_nofuel f Hf) (load_rlog_nofuel f) (load_otab_nofuel f)
+              (file_fuel f) C.hyperv_OBJECT_TABLE_OFFSET) as [Hnf _].
+  - unfold file_fuel, zseq. rewrite zseq_nat_length.
+    destruct (Z.leb_spec 0 (fl_size f)); [apply pow2_fuel; assumption|].
+    replace (Z.to_nat (fl_size f)) with 0%nat by lia. apply Nat.lt_le_trans with (m := 1%nat); [lia|].
+    apply Nat.pow_le_mono_r with (a := 2%nat) (b := 0%nat); lia.
+  - destruct (run_worklist _ _ _ _ _); cbn [bind]; congruence.
+Qed.
+
+(* ====================================================================== from stored entries to the entries linking sees *)
+Lemma stored_type f fo r v : stored_as f fo r v -> e_typ r = type_of v.
+Proof. destruct 1; cbn [type_of]; assumption. Qed.
+
+Lemma node_value f fo r : e_typ r = 9 -> e_value f fo r = Err.
+Proof.
+  intros Ht. unfold e_value. destruct (e_data f fo r) as [d| |] eqn:Hd; cbn [bind]; [|reflexivity|].
+  - rewrite Ht. reflexivity.
+  - exfalso. unfold e_data in Hd. destruct (e_is_fop r); [|discriminate].
+    destruct (fop_of _) as [[o s]|]; [|discriminate]. destruct (assoc_z fo o); discriminate.
+Qed.
+
+Theorem entry_decodes f fo idx off e p a :
+  entry_stores f fo idx off e p a -> lentry_of f fo idx (rentry_of off e) = top p a.
+Proof.
+  intros (Hid & Hkey & Hutf & Hpar & Hpay).
+  destruct (entry_fields off e) as (Hk & _ & Ht & _). cbn zeta in Hk, Ht.
+  unfold lentry_of, top. rewrite Hk, Hkey, Hutf, Hid.
+  change K.skipped_type with 1. change K.node_type with 9.
+  assert (Hp : norm_par (kh_pidx (r_hdr (rentry_of off e)), kh_poff (r_hdr (rentry_of off e))) = p) by exact Hpar.
+  rewrite Hp. destruct (at_payload a) as [|v].
+  - rewrite Ht, Hpay. rewrite node_value by (rewrite Ht; exact Hpay). reflexivity.
+  - rewrite (value_roundtrip _ _ _ _ Hpay), (stored_type _ _ _ _ Hpay).
+    destruct v; reflexivity.
+Qed.
+
+Theorem table_decodes f fo idx : forall es ss off,
+  slots_ok f fo idx off es ss ->
+  filter (fun e => negb (l_free e)) (map (lentry_of f fo idx) (place off es)) = live_of ss.
+Proof.
+  induction es as [|e es IH]; intros [|s ss] off H; cbn [slots_ok] in H; try contradiction; [reflexivity|].
+  destruct H as [Hs Hrest]. cbn [place map filter live_of flat_map]. fold (live_of ss).
+  rewrite (IH ss _ Hrest). destruct s as [|p a].
+  - destruct (entry_fields off e) as (_ & _ & Ht & _). cbn zeta in Ht.
+    unfold lentry_of at 1. cbn [l_free]. change K.skipped_type with 1. rewrite Ht, Hs. reflexivity.
+  - rewrite (entry_decodes _ _ _ _ _ _ _ Hs). reflexivity.
+Qed.
+
+(* ====================================================================== from the bytes of the key tables to the tree *)
+Theorem key_tables_roundtrip f fo (Ts : list stable) F :
+  Forall (stable_ok f fo) Ts -> NoDup (map st_idx Ts) ->
+  Permutation (flat_map (fun T => live_of (st_slots T)) Ts) (flat_forest root_id F) ->
+  NoDup (root_id :: flat_map aids F) -> forest_keys_unique F ->
+  exists kts,
+    Forall2 (fun T kt => parse_ktab (st_bytes T) (st_size T) = Ok kt) Ts kts /\
+    exists t, link (tables_of f fo kts) = Ok t /\ tree_equiv t (Node (map erase F)).
+Proof.
+  intros Hok Hnd Hperm Hids Hkeys.
+  set (kt_of := fun T => {| kt_index := st_idx T; kt_seq := st_seq T; kt_entries := place 10 (st_entries T) |}).
+  exists (map kt_of Ts). split.
+  - clear Hnd Hperm. induction Hok as [|T Ts HT _ IH]; cbn [map]; constructor; [|exact IH].
+    destruct HT as (Hi & Hs & Hc & Hes & Hend & _). unfold st_bytes. now apply table_walk_roundtrip.
+  - apply link_roundtrip; try assumption.
+    + split.
+      * unfold tables_of. rewrite !map_map. cbn [fst kt_index kt_of]. exact Hnd.
+      * intros idx l e Hin Hel. unfold tables_of in Hin. rewrite map_map in Hin. apply in_map_iff in Hin.
+        destruct Hin as (T & [= <- <-] & _). cbn [kt_index kt_entries kt_of] in Hel.
+        apply in_map_iff in Hel. destruct Hel as (r & <- & _). reflexivity.
+    + replace (live_entries (tables_of f fo (map kt_of Ts))) with (flat_map (fun T => live_of (st_slots T)) Ts);
+        [exact Hperm|].
+      clear Hnd Hperm. unfold live_entries, tables_of. induction Hok as [|T Ts HT _ IH]; [reflexivity|].
+      cbn [map flat_map concat snd]. rewrite filter_app, <- IH. f_equal.
+      destruct HT as (_ & _ & _ & _ & _ & Hsl). cbn [kt_of kt_index kt_entries]. symmetry. now apply table_decodes.
+Qed.
+
+(* a concrete stored key table meeting every hypothesis of [key_tables_roundtrip]:
+   table 4 = [ "c" (node, root) ; "v" = -5 (child of "c") ], table full *)
+Definition ex_file : file := {| fl_size := 0; fl_chunks := [] |}.
+Definition ex_child : atree := AT (4, 45) [118] (PLeaf (VInt (-5))) [].
+Definition ex_root : atree := AT (4, 10) [99] PNode [ex_child].
+Definition ex_stable : stable :=
+  {| st_idx := 4; st_seq := 7; st_ck := 0;
+     st_entries := [ {| se_type := 9; se_pidx := 0; se_poff := 77; se_ck := 0; se_ins := 1; se_key := [99];
+                        se_body := repeat 0 12 |};
+                     {| se_type := 3 + 256 * 2; se_pidx := 4; se_poff := 10; se_ck := 5; se_ins := 2; se_key := [118];
+                        se_body := enc_inline (VInt (-5)) |} ];
+     st_tail := []; st_size := 76;
+     st_slots := [SlotNode root_id ex_root; SlotNode (4, 10) ex_child] |}.
+
+Lemma ex_key_tables :
+  Forall (stable_ok ex_file []) [ex_stable] /\ NoDup (map st_idx [ex_stable]) /\
+  Permutation (flat_map (fun T => live_of (st_slots T)) [ex_stable]) (flat_forest root_id [ex_root]) /\
+  NoDup (root_id :: flat_map aids [ex_root]) /\ forest_keys_unique [ex_root].
+Proof.
+  split; [|split; [|split; [|split]]].
+  - constructor; [|constructor]. unfold stable_ok. cbn [ex_stable st_idx st_seq st_ck st_entries st_tail st_size st_slots].
+    split; [lia|]. split; [lia|]. split; [lia|]. split; [|split].
+    + repeat constructor; cbn; lia.
+    + left. split; reflexivity.
+    + cbn [slots_ok]. split; [|split; [|exact I]].
+      * unfold entry_stores. cbn. repeat split; reflexivity.
+      * unfold entry_stores. split; [reflexivity|]. split; [reflexivity|]. split; [reflexivity|]. split; [reflexivity|].
+        cbn [at_payload ex_child]. apply (st_int _ _ _ (-5) []).
+        -- vm_compute. reflexivity.
+        -- vm_compute. reflexivity.
+        -- cbn. lia.
+        -- vm_compute. reflexivity.
+  - cbn. repeat constructor. intros [].
+  - cbn. apply Permutation_refl.
+  - cbn. repeat constructor; cbn; intuition discriminate.
+  - cbn. repeat split; repeat constructor; cbn; intuition discriminate.
+Qed.
